@@ -694,6 +694,16 @@ def val_eq(ex, a, b):
     if isinstance(a, Agg) and isinstance(b, Agg):
         if a.variant != b.variant or len(a.fields) != len(b.fields): return z3.BoolVal(False)
         return z3.And(*[val_eq(ex, x, y) for x, y in zip(a.fields, b.fields)]) if a.fields else z3.BoolVal(True)
+    if a is b: return z3.BoolVal(True)
+    if isinstance(a, Lazy) and isinstance(b, Lazy):
+        en = last_seg(a.ty); da = ex.discr_of(a).e; db = ex.discr_of(b).e; conj = [da == db]
+        for key in set(a.kids) | set(b.kids):
+            if key[0] == 'arc': raise Unsupported('val_eq lazy arc')
+            vi = ENUMS.get(en, []).index(key[0]) if key[0] in ENUMS.get(en, []) else None
+            fa = ex.field_of(a, key[0], key[1], 'T'); fb = ex.field_of(b, key[0], key[1], 'T')
+            e = val_eq(ex, fa, fb)
+            conj.append(e if vi is None else z3.Implies(da == vi, e))
+        return z3.And(*conj)
     if isinstance(a, (Agg, Lazy)) and isinstance(b, (Agg, Lazy)):
         en = last_seg((a if isinstance(a, Lazy) else b).ty)
         da = ex.discr_of(a).e; db = ex.discr_of(b).e
@@ -887,7 +897,7 @@ STD_MODELS = [
     (r'^std::string::String::is_empty$', m_string_is_empty),
     (r'^<std::string::String as Deref>::deref$', lambda ex, c, a: ex.deref_val(a[0])),
     (r'^<std::string::String as Clone>::clone$', lambda ex, c, a: strip(ex, a[0])),
-    (r'^(std::fmt::format|<str as ToString>::to_string|<std::string::String as From<&str>>::from|<.* as ToString>::to_string|std::fmt::format::format_inner|alloc::fmt::format)$', m_fmt),
+    (r'^(format|std::fmt::format|<str as ToString>::to_string|<std::string::String as From<&str>>::from|<.* as ToString>::to_string|std::fmt::format::format_inner|alloc::fmt::format)$', m_fmt),
     (r'^(core::fmt::rt::Argument::<.*>::new_\w+::<.*>|Arguments::<.*>::new.*|Arguments::<.*>::from_str.*|std::io::_print|std::io::_eprint)$', m_opaque),
     (r'^must_use::<.*>$', m_identity),
     (r'^(std::rt::panic_fmt|core::panicking::\w+|std::rt::begin_panic.*|core::panicking::assert_failed.*|std::process::exit|core::panicking::panic.*)(::<.*>)?$', m_panic),
